@@ -55,3 +55,30 @@ def gradient_vs_finite_difference(inp):
         if err > 1e-6 or derr > 1e-10:
             bad.append({'environments': 2 if two else 1, 'max_gradient_error': err, 'dynamics_mismatch': derr})
     return {'violates': bool(bad), 'detail': bad, **out}
+
+
+def gradient_two_time_grids(inp):
+    """the same ParameterizedSystem object used for gradients on two time grids (numerical
+    propagator derivatives): the second gradient must equal the one of a fresh system object"""
+    import oqupy
+    from replay.c03 import _ancilla_pt
+    sx, sy, sz = [oqupy.operators.sigma(c) for c in 'xyz']
+    env0 = np.array([[0.6, 0.1], [0.1, 0.4]])
+
+    def mk():
+        return oqupy.ParameterizedSystem(lambda a, b: 0.5 * a * sx + 0.5 * b * sy)
+    rho0 = oqupy.operators.spin_dm('z+')
+    target = oqupy.operators.spin_dm('y-')
+    levels = np.array([[0.4, -0.3], [0.9, 0.2]])
+    out = {}
+    shared = mk()
+    bad = []
+    for dt, n in ((0.2, 3), (0.1, 4)):
+        pt, _ = _ancilla_pt(dt, n, 0.9 * np.kron(sz, sx), 0.3 * sz, env0, close_last_bond=True)
+        params = np.array([levels[k % 2] for k in range(2 * n)])
+        g_shared = np.array(oqupy.state_gradient(shared, rho0, target.T, [pt], params, progress_type='silent')['gradient'])
+        g_fresh = np.array(oqupy.state_gradient(mk(), rho0, target.T, [pt], params, progress_type='silent')['gradient'])
+        err = float(np.abs(g_shared - g_fresh).max())
+        if err > 1e-9:
+            bad.append({'dt': dt, 'max_difference_to_fresh_system_object': err, 'max_gradient': float(np.abs(g_fresh).max())})
+    return {'violates': bool(bad), 'detail': bad}
